@@ -199,21 +199,22 @@ def rule_trace_config(ctx: Ctx, repo: Repo) -> None:
 
 def run(ctx: Ctx, repo: Repo, tier: str) -> None:
     ctx.assume("the stage-wise conditions (inference admits every value, rewriters never narrow, codec round-trips, rendering denotes the type) are decided under C04-C14")
-    rule_get_stub(ctx, repo)
-    rule_updated_definition(ctx, repo)
-    rule_traced_types(ctx, repo)
-    rule_trace_config(ctx, repo)
+    ctx.attempt(rule_get_stub, ctx, repo)
+    ctx.attempt(rule_updated_definition, ctx, repo)
+    ctx.attempt(rule_traced_types, ctx, repo)
+    ctx.attempt(rule_trace_config, ctx, repo)
     from .memo_rules import tracer_no_memory
-    tracer_no_memory(ctx, repo, "R-C01.5")
+    ctx.attempt(tracer_no_memory, ctx, repo, "R-C01.5")
     from .memo_rules import infer_no_memory
-    infer_no_memory(ctx, repo, "R-C01.5")
+    ctx.attempt(infer_no_memory, ctx, repo, "R-C01.5")
     # stage conditions whose failure alone already breaks C01 (decided in full under the stage's own property):
     # every element of a container is inspected, every exit of a frame records its value's type, distinct rows survive the query
     from . import c02 as _c02, c04 as _c04, c09 as _c09
     ctx.note("R-C04.1/R-C04.2, R-C02.1/R-C02.2 and R-C09.1-3 below are the stage rules of C04, C02 and C09, run here as necessary conditions of C01")
-    _c04.rule_get_type(ctx, repo)
-    _c04.rule_dict_type(ctx, repo)
-    _c02.rule_return_table(ctx, repo)
-    _c09.rule_query(ctx, repo)
+    ctx.attempt(_c04.rule_get_type, ctx, repo)
+    ctx.attempt(_c04.rule_dict_type, ctx, repo)
+    ctx.attempt(_c02.rule_return_table, ctx, repo)
+    ctx.attempt(_c09.rule_query, ctx, repo)
     from . import c11 as _c11
-    _c11.rule_pipeline_core(ctx, repo, "R-C01.6")
+    ctx.attempt(_c11.rule_pipeline_core, ctx, repo, "R-C01.6")
+    ctx.settle()
